@@ -226,6 +226,11 @@ def ob_overlay(c: int, mv: int) -> bool:
     sc = scenarios(op, part("R"), part("W"))
     fi, plan, k, m = sc[part("lo") + pick(c - part("lo"), min(part("hi"), len(sc)) - part("lo"))]
     pres = VALID[fi]
+    roles = part("roles")
+    if "file" in roles:
+        # a directory store serialises metadata through json: a symbolic int costs ~13 paths per scenario in CrossHair's int<->str
+        # model, so the value comes from a pool by a solver decision and the last operation runs untraced too
+        mv = [-99, 0, 7, 99][pick(mv % 4, 4)]
     final_val = (PATTERN, "new", mv) if op in ("store", "store_metadata") else None
     mfinal = dict(m)
     if op not in ("reads", "openbin_w"):
@@ -250,7 +255,7 @@ def ob_overlay(c: int, mv: int) -> bool:
             fsnap = {p: b for p, b in fs.files.items() if p.startswith("/srv/fb/")}, {d for d in fs.dirs if d.startswith("/srv/fb")}
         for name, x, val in plan:
             real_apply(o, name, x, val)
-    symbolic_step = op in ("store", "store_metadata")
+    symbolic_step = op in ("store", "store_metadata") and "file" not in roles
     with quiet():
         if symbolic_step:
             real_apply(o, op, k, final_val)
